@@ -43,6 +43,9 @@ Fixpoint run_obs (fl : rflags) (cl : list string) (ops : list hop) (h : hub)
   end.
 
 Definition strip (ops : list hop) : list hop := filter (fun o => negb (is_restart o)) ops.
+(** the results of the ops that are not restarts *)
+Definition strip_res (ops : list hop) (rs : list res) : list res :=
+  map snd (filter (fun p : hop * res => negb (is_restart (fst p))) (combine ops rs)).
 Definition same (p : snap * snap) : bool := snap_eqb (fst p) (snd p).
 
 Definition agree (fl : rflags) (c : tcase) : bool :=
@@ -57,7 +60,7 @@ Definition agree (fl : rflags) (c : tcase) : bool :=
   && snap_eqb rfin (o_reffinal c)
   (* what the projection leaves out is durable: it differs exactly where the projection does *)
   && list_eqb Bool.eqb (map same ps) (o_full c)
-  && Bool.eqb (snap_eqb fin rfin) (o_reffull c).
+  && Bool.eqb (snap_eqb fin rfin && list_eqb res_eqb (strip_res (c_ops c) rs) rrs) (o_reffull c).
 
 (** ** The executable spec, evaluated on the implementation's own observations *)
 Definition sect (k : nat) (s : snap) : list (list Z) := nth k s [].
@@ -87,7 +90,7 @@ Definition spec_ok (c : tcase) : bool :=
   && forallb (fun b => b) (o_full c)
   && snap_eqb (o_final c) (o_reffinal c)
   && o_reffull c
-  && list_eqb res_eqb (map snd (filter (fun p => negb (is_restart (fst p))) (combine (c_ops c) (o_res c)))) (o_refres c)
+  && list_eqb res_eqb (strip_res (c_ops c) (o_res c)) (o_refres c)
   && ids_safe (map fst (o_pairs c)) (o_final c).
 
 (** ** Variants: index bits (from the most significant) acl, init, prov, fs, delay; 0 = pinned, 1 = repaired *)
